@@ -3,7 +3,7 @@
 A_TOOLS = 'tools trusted: Verus 0.2026.09.13 + Z3, rustc 1.98.1 front end, Kani 0.68 + CBMC 6.11, the extractor (provenance hashes + rewrite log in this file)'
 A_ARITH = 'machine arithmetic is NOT treated as mathematical: every u64/usize operation is an overflow obligation; usize == u64 (64-bit target)'
 
-A_HANDLES = 'the map of open child-bucket handles (prelude/bucketcommit.rs): its iterators list every open child once, the handles form a finite tree (depth measure: recursion of is_dirty / rebalance / spill terminates), an open child has its entry in the parent tree (children_have_entries); Node::spill and merge_nodes are ASSUMED to touch the allocator only through TxFreelist::{allocate, free} (tree_frame) and not the bucket header / flags / journal'
+A_HANDLES = 'the map of open child-bucket handles (prelude/bucketcommit.rs): its iterators list every open child once, the handles form a finite tree (depth measure: recursion of is_dirty / rebalance / spill terminates), an open child has its entry in the parent tree (children_have_entries); Node::spill and merge_nodes are ASSUMED to touch the allocator only through TxFreelist::{allocate, free} and to free only pages of the tree they were handed, which lie below the high-water mark (pend_in_range clause of tree_frame) (tree_frame) and not the bucket header / flags / journal'
 A_SERIAL = 'Page::{branch_elements_mut, leaf_elements_mut, slice} hand out `count` element headers / `size` bytes behind the 32-byte header prefix and leave the other header fields alone (raw-pointer casts, decl only; read-side twins pinned by Kani k1_element_slices / k1_payload_addressing); io::Write for &mut [u8] copies to the front, advances and fails only when the data does not fit (std documentation; rule R24); slice_at_mut is IndexMut'
 A_CELLFIN = 'unit markdel only: RefCell::fin(), the value a cell is left with when the RefMut taken by the function under contract dies (prelude/cell_fin.rs; sound where a function borrows each cell mutably at most once per call, which holds for mark_deleted); that delete_bucket calls mark_deleted on the removed handle is held by the bounded oracle cex_history_stale_handles_below_a_deleted_bucket, not by a contract'
 A_HASHSET = 'std HashSet<u64> / HashMap<u64,u64> per vstd (group_hash_axioms: u64 obeys the key model, RandomState builds valid hashers); `(a..b).collect()` into a HashSet is exactly the ids a..b (stub U24)'
